@@ -582,6 +582,20 @@ def deep_shapes(tier):
     return out
 
 
+LARGE = {
+    'min': ['T[I,I,I,I]', 'T[F,I,F,I]', 'T[I,F,I,F,I]', 'T[F,F,F,F,F]', 'T[I,I,I,I,I,I]'],
+    'max': ['T[I,I,I,I]', 'T[F,I,F,I]', 'T[I,F,I,F,I]', 'T[F,F,F,F,F]', 'T[I,I,I,I,I,I]'],
+    'contains': ['T[T[I,I,I,I],I]', 'T[T[S1,I,F,B,S1],S1]', 'T[T[I,I,I,I,I],T0]'],
+    'contains_any': ['T[T[I,S1,I,S1],T[S1,I,S1]]', 'T[T[I,I,I,I],T[I,I,I,T0]]', 'T[T[I,I],T[I,I,I,I,E]]'],
+    'len': ['S5', 'T[I,I,I,I,I]', 'S4'],
+    'str::from': ['T[I,S1,B,F,E]', 'S5', 'T[T[I,I],T[S1,T0],I,B]'],
+    'str::substring': ['T[S5,I,I]', 'T[S5,I]', 'T[S4,I,I]'],
+    'str::to_lowercase': ['S5'], 'str::to_uppercase': ['S5'], 'str::trim': ['S5'],
+    'if': ['T[B,T[I,I,I,I],S5]'],
+    'typeof': ['T[I,I,I,I,I]', 'S5'],
+}
+
+
 def make_units(tier, seed, mode):
     timeout_ms = 60000 if tier == 'quick' else 600000
     cvc5_rate = 0.005 if tier == 'quick' else 0.05
@@ -591,7 +605,7 @@ def make_units(tier, seed, mode):
     for ofc in (True, False):
         frontend.load(overflow_checks=ofc)
         for name in names:
-            mine = list(shapes) + (deep_shapes(tier) if name in DEEP_BUILTINS else [])
+            mine = list(shapes) + (deep_shapes(tier) if name in DEEP_BUILTINS else []) + LARGE.get(name, [])
             random.Random(zlib.crc32(name.encode()) ^ seed).shuffle(mine)
             k = 24
             for i in range(0, len(mine), k):
